@@ -1,0 +1,168 @@
+// Verification hooks, compiled only with `--cfg libhaystack_verif`.
+//
+// `TracedMap` / `TracedRef` stand in for `DashMap` / its read guard in `defs::namespace`: they delegate to the
+// real map (the real locking still happens) and record every cache touch and guard drop of the calling thread
+// in a global, sequence-numbered log. Function bodies of the namespace are untouched, so guard lifetimes are
+// observed exactly as written.
+
+use crate::defs::namespace::DefDict;
+use crate::val::{Dict, Symbol};
+use dashmap::{mapref::one::Ref, DashMap};
+use std::fmt::Debug;
+use std::hash::Hash;
+use std::ops::Deref;
+use std::sync::atomic::{AtomicBool, AtomicU64, Ordering};
+use std::sync::Mutex;
+
+#[derive(Clone, Debug)]
+pub struct HookEvent {
+    pub seq: u64,
+    pub thread: u64,
+    pub op: &'static str,
+    pub map: u64,
+    pub key: String,
+    pub flag: bool,
+    pub value: Vec<String>,
+}
+
+static SEQ: AtomicU64 = AtomicU64::new(0);
+static MAP_IDS: AtomicU64 = AtomicU64::new(0);
+static ENABLED: AtomicBool = AtomicBool::new(false);
+static LOG: Mutex<Vec<HookEvent>> = Mutex::new(Vec::new());
+
+thread_local! {
+    static THREAD_ID: std::cell::Cell<u64> = const { std::cell::Cell::new(0) };
+}
+
+pub fn set_enabled(on: bool) {
+    ENABLED.store(on, Ordering::SeqCst);
+}
+
+pub fn set_thread_id(id: u64) {
+    THREAD_ID.with(|t| t.set(id));
+}
+
+pub fn take_events() -> Vec<HookEvent> {
+    let mut log = LOG.lock().unwrap_or_else(|e| e.into_inner());
+    let mut events = std::mem::take(&mut *log);
+    events.sort_by_key(|e| e.seq);
+    events
+}
+
+/// Records an event of the caller (query begin / end) in the same sequence as the cache events
+pub fn note(op: &'static str, key: String, flag: bool, value: Vec<String>) {
+    record(op, 0, key, flag, value);
+}
+
+fn record(op: &'static str, map: u64, key: String, flag: bool, value: Vec<String>) {
+    if !ENABLED.load(Ordering::Relaxed) {
+        return;
+    }
+    let mut log = LOG.lock().unwrap_or_else(|e| e.into_inner());
+    // the sequence number is taken under the log lock: log order = sequence order
+    let seq = SEQ.fetch_add(1, Ordering::SeqCst);
+    log.push(HookEvent {
+        seq,
+        thread: THREAD_ID.with(|t| t.get()),
+        op,
+        map,
+        key,
+        flag,
+        value,
+    });
+}
+
+/// What is logged of a cached value
+pub trait Project {
+    fn project(&self) -> Vec<String>;
+}
+
+impl Project for Vec<&Dict> {
+    fn project(&self) -> Vec<String> {
+        self.iter().map(|d| d.def_name().clone()).collect()
+    }
+}
+
+pub trait KeyName {
+    fn key_name(&self) -> String;
+}
+
+impl KeyName for Symbol {
+    fn key_name(&self) -> String {
+        self.value.clone()
+    }
+}
+
+#[derive(Debug)]
+pub struct TracedMap<K: Eq + Hash, V> {
+    id: u64,
+    inner: DashMap<K, V>,
+}
+
+impl<K: Eq + Hash, V> Default for TracedMap<K, V> {
+    fn default() -> Self {
+        TracedMap {
+            id: MAP_IDS.fetch_add(1, Ordering::SeqCst) + 1,
+            inner: DashMap::default(),
+        }
+    }
+}
+
+impl<K: Eq + Hash + KeyName, V: Project> TracedMap<K, V> {
+    pub fn get<'a>(&'a self, key: &K) -> Option<TracedRef<'a, K, V>> {
+        match self.inner.get(key) {
+            Some(guard) => {
+                // logged while the guard is held
+                record("get", self.id, key.key_name(), true, guard.value().project());
+                Some(TracedRef {
+                    map: self.id,
+                    inner: guard,
+                })
+            }
+            None => {
+                record("get", self.id, key.key_name(), false, Vec::new());
+                None
+            }
+        }
+    }
+
+    pub fn contains_key(&self, key: &K) -> bool {
+        let present = self.inner.contains_key(key);
+        record("contains", self.id, key.key_name(), present, Vec::new());
+        present
+    }
+
+    pub fn insert(&self, key: K, value: V) -> Option<V> {
+        let name = key.key_name();
+        let projected = value.project();
+        record("insert-begin", self.id, name.clone(), false, projected.clone());
+        let old = self.inner.insert(key, value);
+        record("insert", self.id, name, old.is_some(), projected);
+        old
+    }
+}
+
+pub struct TracedRef<'a, K: Eq + Hash, V> {
+    map: u64,
+    inner: Ref<'a, K, V>,
+}
+
+impl<K: Eq + Hash, V> Deref for TracedRef<'_, K, V> {
+    type Target = V;
+    fn deref(&self) -> &V {
+        self.inner.value()
+    }
+}
+
+impl<K: Eq + Hash, V> Drop for TracedRef<'_, K, V> {
+    fn drop(&mut self) {
+        // logged before the guard is released (fields are dropped after this body)
+        record("drop", self.map, String::new(), false, Vec::new());
+    }
+}
+
+impl<K: Eq + Hash + Debug, V: Debug> Debug for TracedRef<'_, K, V> {
+    fn fmt(&self, f: &mut std::fmt::Formatter<'_>) -> std::fmt::Result {
+        self.inner.value().fmt(f)
+    }
+}
